@@ -95,6 +95,10 @@ def make_case(seed, index, tier):
             for act in acts:
                 if rng.random() < 0.3:
                     act['fail'] = True
+            if acts and rng.random() < 0.3:
+                # ... with the TaskCancelled of a task it awaits (a failure that scopes do not
+                # report): the others are aborted all the same, no result comes after it
+                rng.choice(acts)['fail'] = 'join'
     if spec['in_cleanup'] and any(act['fail'] in ('join', 'cancelled') or act.get('owned')
                                   for act in acts):
         spec['in_cleanup'] = False
@@ -586,7 +590,8 @@ def judge_lazy_failing_first(checker, sess, spec, result, order, t0, count, stru
                               'although an activity had failed at %r' % (
                                   position, value, when, min(w for _, w in failures)))
     if result[0] == 'first-concurrent':
-        logged = ['act%d' % number for number, _ in failures]
+        logged = ['act%d' % number for number, _ in failures
+                  if acts[number]['fail'] != 'join']
         if not result[3] or any(name not in logged for name in result[3]):
             checker.violation('first-wrong-failures', 'Concurrent of %s, logged failures %s' % (
                 result[3], logged))
@@ -599,7 +604,10 @@ def judge_lazy_failing_first(checker, sess, spec, result, order, t0, count, stru
                 checker.violation('first-failure-time', 'first() failed at %r; the activity '
                                   'failed at %r, the consumer asked at %s' % (
                                       result[2], first_fail, asks))
-    elif failures and not struck and len(items) < limit:
+    elif failures and not struck and len(items) < limit and not all(
+            acts[number]['fail'] == 'join' for number, _ in failures):
+        # (an activity that ended with the TaskCancelled of a task it awaited is nothing a scope
+        # reports: the iteration ends early - quietly - but ends it does)
         checker.violation('first-failure-not-raised', 'activities failed at %s but first() ended '
                           'normally with %d of %d results' % (
                               [w for _, w in failures], len(items), limit))
